@@ -77,7 +77,7 @@ def run(ctx):
     mon.attach_gates()
     d2 = F.gate.density2d
     path = os.path.join(ctx.tmpdir, 'c05.fcs')
-    n = 500 if ctx.tier == 'quick' else 12000
+    n = 500 if ctx.tier == 'quick' else 60000
     nmax = 400 if ctx.tier == 'quick' else 3000
     for cid, rng in ctx.cases([('a', i) for i in range(n)]):
         mon.cid = cid
@@ -137,7 +137,7 @@ def run(ctx):
                       nontrivial=n_in >= 20 and 0 < f < 1, distinct_key=core.digest(cid),
                       sample=dict(desc, bins_repr=repr(bins)[:200], kept=int(mask.sum()), in_grid=n_in) if cid[1] < 3 else None)
     # ---- samples with sample-derived bins ------------------------------------
-    ns = 40 if ctx.tier == 'quick' else 800
+    ns = 40 if ctx.tier == 'quick' else 4000
     for cid, rng in ctx.cases([('s', i) for i in range(ns)]):
         mon.cid = cid
         isint = rng.random() < 0.6
@@ -197,4 +197,7 @@ def run(ctx):
             if ctx.check(o.raised, 'refusal:accepted', cid, what=what):
                 ctx.refusal(what + ':' + type(o.exc).__name__)
         ctx.case_done(class_key=('refusals',), nontrivial=True, distinct_key=core.digest(cid))
+    # the repository's own tests as a workload under the same monitors (their assertions are not the oracle)
+    from rv import suite_workload
+    suite_workload.run_repo_suite(ctx, mon, modules=('test_gate.py',))
     mon.detach()
